@@ -55,7 +55,9 @@ def case_st(draw, mode):
     kind = draw(st.sampled_from(['I', 'QU', 'IQU', 'IQUV', 'IQU', 'QU', 'IQUV']))
     shape = [draw(st.integers(1, 3)) for _ in range(draw(st.integers(0, 2)))]
     dt = draw(st.sampled_from(['float32', 'float64'])) if mode == 'x64' else 'float32'
-    adt = dt if dt == 'float32' else draw(st.sampled_from(['float32', 'float64']))
+    # angle dtype: any real floating dtype (float64 angles on float32 data are legitimate: accumulated HWP angles)
+    adt = draw(st.sampled_from(['float32', 'float64'])) if mode == 'x64' else 'float32'
+    np_angles = draw(st.integers(0, 3)) == 0  # angles given as a numpy ndarray instead of a JAX array
     what = draw(st.sampled_from(['chain'] * 5 + ['hwp_create', 'pol_create', 'rot_create']))
     seed = draw(st.integers(0, 99))
     if what == 'chain':
@@ -69,10 +71,10 @@ def case_st(draw, mode):
                 elems.append({'k': k, 'angles': draw(angles_st(shape))})
         pol = draw(st.booleans())
         return {'what': 'chain', 'kind': kind, 'shape': shape, 'dtype': dt, 'adtype': adt, 'elems': elems, 'pol': pol,
-                'seed': seed}
+                'seed': seed, 'np_angles': np_angles}
     use_angles = draw(st.booleans()) or what == 'rot_create'
     return {'what': what, 'kind': kind, 'shape': shape, 'dtype': dt, 'adtype': adt,
-            'angles': draw(angles_st(shape)) if use_angles else None, 'seed': seed}
+            'angles': draw(angles_st(shape)) if use_angles else None, 'seed': seed, 'np_angles': np_angles}
 
 
 def strategy(tier, mode):
@@ -159,7 +161,15 @@ def check(recipe, mode):
     struct = St.to_jax(S)
     comps = _input(kind, shape, recipe['seed'])
     x = StokesPyTree.from_stokes(*[jnp.asarray(comps[c], dtype=dt) for c in kind.lower()])
-    eps = float(np.finfo(np.float32 if 'float32' in (dt, adt) else np.float64).eps)
+    # results are float32-accurate when data and angles are float32, or when the angles are the narrower ones;
+    # float64 angles on float32 data promote to float64 (the integer-valued inputs are exact in float32)
+    eps = float(np.finfo(np.float32 if adt == 'float32' else np.float64).eps)
+    if dt == 'float32' and adt == 'float32':
+        eps = float(np.finfo(np.float32).eps)
+
+    def arr(a):
+        a = np.asarray(a, dtype=adt)
+        return a if recipe.get('np_angles') else jnp.asarray(a)
     xmax = 5.0 * 2
 
     def tol_for(elems):
@@ -171,7 +181,7 @@ def check(recipe, mode):
             return HWPOperator(struct)
         if e['k'] == 'pol':
             return LinearPolarizerOperator(struct)
-        r = QURotationOperator(jnp.asarray(np.asarray(e['angles']), dtype=adt), struct)
+        r = QURotationOperator(arr(e['angles']), struct)
         return r.T if e['k'] == 'rotT' else r
 
     classes = ['kind:' + kind]
@@ -196,6 +206,8 @@ def check(recipe, mode):
         _compare(must_not_raise('chain-mv', chain.mv, x), want, out_kind, tol_for(elems), 'chain-value')
         red = must_not_raise('reduce', chain.reduce)
         _compare(must_not_raise('reduced-mv', red.mv, x), want, out_kind, tol_for(elems) * 2, 'reduced-chain-value')
+        # reduction must not have modified the operands: the unreduced chain still gives the same result
+        _compare(must_not_raise('chain-mv', chain.mv, x), want, out_kind, tol_for(elems), 'chain-value-after-reduce')
         nrot = sum(e['k'] in ('rot', 'rotT') for e in elems)
         nhwp = sum(e['k'] == 'hwp' for e in elems)
         generic = any(np.any(np.abs(np.mod(np.asarray(e['angles'], dtype=float), math.pi / 4)) > 1e-3) for e in elems if 'angles' in e)
@@ -210,7 +222,7 @@ def check(recipe, mode):
     ang = recipe['angles']
     kw = {}
     if ang is not None:
-        kw['angles'] = jnp.asarray(np.asarray(ang), dtype=adt)
+        kw['angles'] = arr(ang)
     npdt = np.float32 if dt == 'float32' else np.float64
     if recipe['what'] == 'hwp_create':
         op = must_not_raise('HWPOperator.create', HWPOperator.create, shape, npdt, kind, **kw)
@@ -230,6 +242,7 @@ def check(recipe, mode):
     _compare(must_not_raise('factory-mv', op.mv, x), want, out_kind, tol_for(elems), 'factory-value:' + recipe['what'])
     red = must_not_raise('factory-reduce', op.reduce)
     _compare(must_not_raise('factory-reduced-mv', red.mv, x), want, out_kind, tol_for(elems) * 2, 'factory-reduced-value:' + recipe['what'])
+    _compare(must_not_raise('factory-mv', op.mv, x), want, out_kind, tol_for(elems), 'factory-value-after-reduce:' + recipe['what'])
     generic = ang is not None and np.any(np.abs(np.mod(np.asarray(ang, dtype=float), math.pi / 4)) > 1e-3)
     classes += ['factory:' + recipe['what'], 'with_angles' if ang is not None else 'without_angles']
     return {'nontrivial': bool(kind != 'I' and generic), 'classes': classes}
